@@ -101,10 +101,11 @@ theorem aliveLink_grace (classic : Bool) (now : Nat) (l : FLink F) :
 
 /-- **Outside housekeeping nobody writes the start-up grace deadline, except a tear-down, which zeroes it.** -/
 theorem step_grace_nonhk (s : Sys F) (e : Ev) (j : Nat) (l : FLink F) (hl : s.links[j]? = some l)
-    (hne : ∀ now, e ≠ .hk now) :
+    (hne : ∀ now, e ≠ .hk now) (hnr : e.isReload = false) :
     ∃ l', (step s e).1.links[j]? = some l' ∧
       (l'.graceDeadline = l.graceDeadline ∨ l'.graceDeadline = 0) := by
   cases e with
+  | reload now addrs outs => cases hnr
   | hk now => exact absurd rfl (hne now)
   | client now pkt =>
     obtain ⟨m, hm, hcase⟩ := SelShell.passLinks_get s pkt now j l hl
